@@ -52,7 +52,7 @@ func blockOfCall(p *Prog, f *ssa.Function, name string) []*ssa.Call {
 }
 
 func checkC17(p *Prog, r *Report) {
-	r.Rule("R17a", "exit status: the error flag is a monotone accumulator (its loop-carried value is only ever `true` or itself, it is `true` on every path through the err != nil edge); the command's normal return is reached only through the false edge of the flag; every os.Exit has a non-zero constant status; a pattern error exits non-zero", 6)
+	r.Rule("R17a", "exit status: the error flag is a monotone accumulator (its loop-carried value is only ever `true` or itself, it is `true` on every path through the err != nil edge); the command's normal return is reached only through the false edge of the flag; every os.Exit has a non-zero constant status; a pattern error exits non-zero", 4)
 	r.Rule("R17b", "write gating: from the err == nil edge every path to the next iteration passes through the write call (every translated package is written, whatever happened to other packages); from the err != nil edge the write call is reachable only through the ignoreErrors edge", 2)
 	r.Rule("R17c", "file placement: the written path is path.Join(outRootDir, coq.ImportToPath(f.PkgPath, …)) for the same file value whose contents are written; contents are f.Write output", 3)
 	r.Rule("R17d", "writeFileIfChanged: no file write is reachable once bytes.Equal(old, new) held; every other normal return returns the result of os.WriteFile(name, data, perm) with the parameters forwarded; os.WriteFile (create+truncate+write) is the only file-writing call of the command", 4)
@@ -151,7 +151,8 @@ func checkC17(p *Prog, r *Report) {
 		}
 	}
 	if flag == nil {
-		r.Fail("R17a", "translate error flag", tr.Pos(), "no loop-carried boolean error flag", "")
+		// no boolean flag (e.g. a failure counter): the exit status is decided by the inductive path rule below alone
+		r.Note("no loop-carried boolean error flag in %s: the phi-structure check is skipped, the inductive path rule decides", FuncName(tr))
 	} else {
 		reachFromT := func(b *ssa.BasicBlock) bool {
 			return b == T || pathAvoiding(T, b, map[*ssa.BasicBlock]bool{header: true}, nil, p)
@@ -315,7 +316,14 @@ func checkC17(p *Prog, r *Report) {
 			if (strings.HasPrefix(k, "false == phi:") || strings.HasPrefix(k, "phi:") && strings.HasSuffix(k, " == false")) && !strings.Contains(k, "rangeindex") {
 				flagIn = true
 			}
+			// a failure counter instead of a flag: the incoming count was zero
+			if (strings.HasPrefix(k, "phi:") && (strings.HasSuffix(k, " <= 0") || strings.HasSuffix(k, " == 0")) || strings.HasPrefix(k, "0 == phi:")) && !strings.Contains(k, "rangeindex") && !strings.Contains(k, " + ") {
+				flagIn = true
+			}
 			if nilCmp(k, " != ", errPrefix) {
+				if os.Getenv("VERIF_DEBUG") == "R17a" {
+					fmt.Println("R17a bad path rels:", relList(ip.Rels))
+				}
 				retBad = "translate returns normally on a path on which a package failed: " + ip.Trace
 			}
 		}
